@@ -1414,7 +1414,8 @@ void tNMEA2000::SetHeartbeatIntervalAndOffset(uint32_t _interval, uint32_t _offs
     if ( offset==0xffffffff ) offset=Devices[i].HeartbeatScheduler.GetOffset();
 
     if ( interval==0 ) { // This is for test purposes
-      Devices[i].HeartbeatScheduler.Disable();
+      // Store the zero period too, so that the scheduler stays disabled until a new interval is set.
+      Devices[i].HeartbeatScheduler.SetPeriodAndOffset(0,offset);
     } else {
       if ( interval>MaxHeartbeatInterval ) interval=MaxHeartbeatInterval;
       if ( interval<1000 ) interval=1000;
